@@ -17,7 +17,7 @@ TABLES = ['T17']
 RULE = ('cases = (caller in raw AtomicFile API / users / channels / networks / ignores / userdata (world.flush) / registry.close / '
         'FlatfileMapping.vacuum) x (old content absent/empty/shorter/longer/equal/larger-than-buffer) x (tmpDir none / same fs / other fs '
         '(os.rename made to fail with EXDEV as the kernel does; a real second file system (/dev/shm) is used too when present)) x '
-        '(backupDir none / dir / /dev/null) x flags; every case is run once uncrashed with the I/O primitives wrapped (effect list '
+        '(backupDir none / dir / /dev/null) x (target a regular file / a symbolic link conf/x -> ../store/x, dangling on a first save) x flags; every case is run once uncrashed with the I/O primitives wrapped (effect list '
         'compared with the model) and then once per crash point (before and after every effect; kill by os._exit in a forked child), '
         'the disk being compared with the model prediction and with the property.  Second death mode: at the same points an exception is '
         'RAISED (SystemExit as from the SIGTERM handler at every point, KeyboardInterrupt at a fifth of them (half in the thorough tier), '
@@ -36,6 +36,8 @@ TRUSTED = ['the file-system model itself (POSIX contract, not Limnoria code): re
            'raised while the object is being finalised (__del__) are ignored by CPython and are not fault points; which call sites '
            'swallow a write error / commit on unwinding comes from harness/tables/t17.py (ast scan of every AtomicFile call site; both lists '
            'must be empty for the theorems to check)',
+           'symbolic links: only the target path may be one (single level, pointing to a regular file or to nothing, elsewhere than the '
+           'temp/backup paths = link_ok); open() follows it, os.rename replaces it (POSIX); events of open() are recorded under the path reached',
            'user-space buffering of the temp file: before its close the on-disk temp file is only required to be a prefix of the model content']
 ASSUMPTIONS = ['world.testing/log.testing off', 'crash = process death (os._exit) or an exception (SystemExit/KeyboardInterrupt/OSError) raised '
                'at an effect boundary that unwinds the stack, after which the process exits normally; kernel keeps completed system calls',
@@ -43,7 +45,7 @@ ASSUMPTIONS = ['world.testing/log.testing off', 'crash = process death (os._exit
 LEVEL_TEXT = ('Coq theorems over an executable effect-list model of utils.file.AtomicFile on a file-system model (crash = any prefix of the '
               'effect list): with the temp file on the same file system the target is, after every prefix, exactly the old or the new content '
               '(or empty on a first-ever save); refuted with a witness when tmpDir is on another file system (finding F20), where the target is '
-              'proved to be old or a prefix of new; temp/backup names never alias the target; rollback, empty-overwrite and backup rules; the same atomicity when death is an exception '
+              'proved to be old or a prefix of new; the target path may be a symbolic link (the commit renames over the link, never writes through it; regenerated table: exactly one commit path in AtomicFile.close); temp/backup names never alias the target; rollback, empty-overwrite and backup rules; the same atomicity when death is an exception '
               'that unwinds the stack (prefix of the effects followed by what __del__/__exit__ and the callers do, taken from the regenerated '
               'table: no caller commits in finally/except and, since the fix of finding C17.F44 in registry.close, none swallows the I/O error '
               'of a write), for every caller; one statement over all death modes (C17_atomic_any_death) and its composition with the loader '
@@ -59,7 +61,7 @@ EXPLANATION = 'C17: effect-list model of src/utils/file.py AtomicFile; theorems 
 TOKEN = '3f786850e387550fdab836ed7e6dc881de23001b'
 NOW = 1700000000
 XPLACE = '/X'            # canonical name of the tmp dir on the other file system
-WATCH = ('conf/', 'data/', 'tmp/', 'backup/', XPLACE + '/')
+WATCH = ('conf/', 'data/', 'tmp/', 'backup/', 'store/', XPLACE + '/')
 CALLERS = ('users', 'channels', 'networks', 'ignores', 'userdata', 'vacuum', 'registry')
 
 
@@ -168,6 +170,7 @@ def instrument(rec, inp):
     def w_open(file, mode='r', *a, **k):
         p = rec.canon(file) if not isinstance(file, int) else None
         if rec.watched(p) and any(c in mode for c in 'wax+'):
+            p = rec.canon(os.path.realpath(file))        # open() follows a symbolic link
             kind = 'create' if 'w' in mode else ('touch' if ('a' in mode and '+' not in mode) else 'open-' + mode)
             rec.before()
             f = _real['open'](file, mode, *a, **k)
@@ -445,6 +448,10 @@ def target_of(inp):
             'ignores': 'conf/ignores.conf', 'userdata': 'conf/userdata.conf', 'vacuum': 'data/flat.db', 'registry': 'conf/bot.conf'}[c]
 
 
+def link_target(inp):
+    return 'store/' + os.path.basename(target_of(inp))
+
+
 def child_main(inp, crash, xdir, logfd):
     import supybot.utils.file as ufile, supybot.dbi as dbi
     tmp, backup = inp.get('tmp', 'none'), inp.get('backup', 'none')
@@ -520,7 +527,7 @@ def child_main(inp, crash, xdir, logfd):
 
 
 def snapshot(jobdir, xdir):
-    files = {}
+    files, links = {}, {}
     for base, label in ((jobdir, ''), (xdir, XPLACE)):
         if not base or not os.path.isdir(base):
             continue
@@ -530,16 +537,20 @@ def snapshot(jobdir, xdir):
                 rel = os.path.relpath(full, base)
                 rel = (label + '/' + rel) if label else rel
                 if rel.startswith(WATCH):
-                    with open(full, 'rb') as f:
+                    if os.path.islink(full):
+                        links[rel] = os.readlink(full)
+                        if not os.path.exists(full):
+                            continue                     # dangling: reading the path finds no file
+                    with open(full, 'rb') as f:          # a link is read through, as the loader would
                         files[rel] = f.read().decode('latin1')
-    return files
+    return files, links
 
 
 def run_job(base, xbase, idx, job):
     inp, crash = job['inp'], job['crash']
     jobdir = os.path.join(base, 'j%d' % idx)
     xdir = os.path.join(xbase, 'j%d' % idx) if (xbase and inp.get('tmp') == 'realxdev') else None
-    for sub in ('conf', 'data', 'tmp', 'backup', 'scratch'):
+    for sub in ('conf', 'data', 'tmp', 'backup', 'store', 'scratch'):
         os.makedirs(os.path.join(jobdir, sub))
     if xdir:
         os.makedirs(xdir)
@@ -548,6 +559,12 @@ def run_job(base, xbase, idx, job):
     try:
         target = target_of(inp)
         prepare_old(inp['caller'], inp.get('old'), target)
+        if inp.get('link'):
+            # the target path is a symbolic link (conf/users.conf -> ../store/users.conf); dangling when there is no old file
+            q = link_target(inp)
+            if os.path.exists(target):
+                os.rename(target, q)
+            os.symlink(os.path.join('..', q), target)
         out['old'] = open(target, 'rb').read().decode('latin1') if os.path.exists(target) else None
         if crash is None:
             out['old_state'] = loaded_state(inp['caller'], target, os.path.join(jobdir, 'scratch'))[0]
@@ -563,7 +580,7 @@ def run_job(base, xbase, idx, job):
         out['exit'] = os.waitstatus_to_exitcode(status)
         raw = open(os.path.join(jobdir, 'log.json')).read()
         out['log'] = json.loads(raw) if raw else None
-        out['files'] = snapshot(jobdir, xdir)
+        out['files'], out['links'] = snapshot(jobdir, xdir)
         st, opened = loaded_state(inp['caller'], target, os.path.join(jobdir, 'scratch'))
         out['state'], out['opened'] = st, opened
     except Exception:
@@ -649,7 +666,8 @@ def model_case(inp, log):
     tmp = inp.get('tmp', 'none')
     tmpdir = {'none': None, 'same': 'tmp', 'exdev': 'tmp', 'realxdev': XPLACE}[tmp]
     cfg = [[] if tmpdir is None else [tmpdir], tmp in ('exdev', 'realxdev'),
-           [] if s['backupDir'] is None else [s['backupDir']], s['mbis'], s['aeo']]
+           [] if s['backupDir'] is None else [s['backupDir']], s['mbis'], s['aeo'],
+           [link_target(inp)] if inp.get('link') else []]
     return cfg, s['filename']
 
 
@@ -728,7 +746,7 @@ def evaluate(ctx, cases, limit=40, kind_prefix=''):
             ops.append([2])
         else:
             ops.append([1])
-        fs0 = [] if r['old'] is None else [[wire_bytes(fn), wire_bytes(r['old'])]]
+        fs0 = [] if r['old'] is None else [[wire_bytes(link_target(c) if c.get('link') else fn), wire_bytes(r['old'])]]
         n = len(log['events'])
         pts = [tuple(c['crash'][:2])] if c.get('crash') else crash_points(ctx, log['events'], limit)
         ks = sorted({i + (side == 'after') for i, side in pts} | {0, n})
@@ -765,7 +783,7 @@ def evaluate(ctx, cases, limit=40, kind_prefix=''):
                 mres = [('ok' if x[0] == 0 else {2: 'ValueError', 12: 'OtherError'}.get(x[1], x[1])) for x in m[1]]
                 meffs = [dec_eff(e) for e in m[2]]
                 states = {k: [dec_opt(st[0]), dec_opt(st[1]) if info['full_temp'] else (None if st[1] == [] else st[1][0]),
-                              dec_opt(st[2])] for k, st in zip(info['ks'], m[3])}
+                              dec_opt(st[2]), dec_opt(st[3]), bool(st[4])] for k, st in zip(info['ks'], m[3])}
                 info.update(names=names, states=states)
                 if meffs != canon_events(log['events']):
                     ctx.disagree(c, meffs, canon_events(log['events']), 'effect sequence of the uncrashed run')
@@ -826,11 +844,12 @@ def evaluate(ctx, cases, limit=40, kind_prefix=''):
                         ctx.disagree(inp, meffs, canon_events(log['events']),
                                      'effect sequence of the flush interrupted by %s %s effect %d' % (mode, pt[1], pt[0]))
                     st = m[1]
-                    want = [dec_opt(st[0]), dec_opt(st[1]) if info['full_temp'] else (None if st[1] == [] else st[1][0]), dec_opt(st[2])]
+                    want = [dec_opt(st[0]), dec_opt(st[1]) if info['full_temp'] else (None if st[1] == [] else st[1][0]), dec_opt(st[2]),
+                            dec_opt(st[3]), bool(st[4])]
                     fn, (temp, backup) = info['fn'], info['names']
-                    got = [r['files'].get(fn), r['files'].get(temp), r['files'].get(backup)]
-                    cmp_got = [got[0], len(got[1]) if (isinstance(want[1], int) and got[1] is not None) else got[1], got[2]]
-                    extra = sorted(set(r['files']) - {fn, temp, backup})
+                    got = [r['files'].get(fn), r['files'].get(temp), r['files'].get(backup)] + link_view(c, info, r)
+                    cmp_got = [got[0], len(got[1]) if (isinstance(want[1], int) and got[1] is not None) else got[1]] + got[2:]
+                    extra = sorted(set(r['files']) - {fn, temp, backup, link_target(c)})
                     if cmp_got != want or extra:
                         ctx.disagree(inp, [short(x) for x in want], [short(x) for x in got] + extra,
                                      'files on disk after %s was raised %s effect %d and the stack unwound' % (mode, pt[1], pt[0]))
@@ -869,6 +888,13 @@ def short(s):
     return '%d bytes %r' % (len(s), s[:40])
 
 
+def link_view(inp, info, r):
+    """[content of the file the link points to, is the target path still a link] -- ([None, False] without a link)"""
+    if not inp.get('link'):
+        return [None, False]
+    return [r['files'].get(link_target(inp)), info['fn'] in r.get('links', {})]
+
+
 def check_disk(ctx, inp, info, r, k, pt, full):
     """correspondence: disk after the (crashed) run == model state after k effects"""
     want = info['states'].get(k)
@@ -876,8 +902,8 @@ def check_disk(ctx, inp, info, r, k, pt, full):
         return
     fn, (temp, backup) = info['fn'], info['names']
     files = r['files']
-    got = [files.get(fn), files.get(temp), files.get(backup)]
-    ok = got[0] == want[0] and got[2] == want[2]
+    got = [files.get(fn), files.get(temp), files.get(backup)] + link_view(inp, info, r)
+    ok = got[0] == want[0] and got[2:] == want[2:]
     # temp: user-space buffering before its close
     closed = any(e[0] == 'close' for e in r['log']['events'][:k])
     if isinstance(want[1], int):       # very long flush: the model reports the temp file's length only
@@ -886,7 +912,7 @@ def check_disk(ctx, inp, info, r, k, pt, full):
         ok = ok and got[1] == want[1]
     else:
         ok = ok and want[1].startswith(got[1])
-    extra = sorted(set(files) - {fn, temp, backup})
+    extra = sorted(set(files) - {fn, temp, backup, link_target(inp)})
     if not ok or extra:
         ctx.disagree(inp, [short(x) for x in want], [short(x) for x in got] + extra,
                      'files on disk after %s' % ('the complete run' if full else 'a kill %s effect %d' % (pt[1], pt[0])))
@@ -914,13 +940,14 @@ def oracle(ctx, inp, c, info, r):
 
 # --------------------------------------------------------------------------
 # case generation
-def raw_case(old, writes, tmp='none', backup='none', mbis=None, aeo=None, end='close', chunk=0, ops=None, explicit=False, with_=False):
+def raw_case(old, writes, tmp='none', backup='none', mbis=None, aeo=None, end='close', chunk=0, ops=None, explicit=False, with_=False,
+             link=False):
     return {'caller': 'raw', 'old': old, 'ops': ops if ops is not None else [['w', w] for w in writes] + [[end]],
-            'tmp': tmp, 'backup': backup, 'mbis': mbis, 'aeo': aeo, 'chunk': chunk, 'explicit_dirs': explicit, 'with': with_}
+            'tmp': tmp, 'backup': backup, 'mbis': mbis, 'aeo': aeo, 'chunk': chunk, 'explicit_dirs': explicit, 'with': with_, 'link': link}
 
 
-def db_case(caller, old, new, tmp='none', backup='none', chunk=0):
-    return {'caller': caller, 'old': old, 'new': new, 'tmp': tmp, 'backup': backup, 'chunk': chunk}
+def db_case(caller, old, new, tmp='none', backup='none', chunk=0, link=False):
+    return {'caller': caller, 'old': old, 'new': new, 'tmp': tmp, 'backup': backup, 'chunk': chunk, 'link': link}
 
 
 WITNESS = raw_case('OLD-1 OLD-2 ', ['NEW-1 ', 'NEW-2 ', 'NEW-3 '], tmp='exdev', chunk=6)
@@ -950,6 +977,19 @@ CORPUS += [
     dict(db_case('userdata', {'n': 3, 'v': 1}, {'n': 1, 'v': 2}, backup='dir', chunk=32), crash=[3, 'before', 'OSError']),
 ]
 
+# the target path is a symbolic link (conf/users.conf -> ../store/users.conf, the registry file, a flatfile)
+CORPUS += [
+    raw_case('old content\n', ['new ', 'content\n'], link=True),
+    raw_case(None, ['first save through a dangling link\n'], link=True),
+    raw_case('long old content ' * 4, ['short\n'], backup='dir', tmp='same', chunk=16, link=True),
+    raw_case('OLD-1 OLD-2 ', ['NEW-1 ', 'NEW-2 '], tmp='exdev', chunk=6, link=True),
+    raw_case('old\n', ['abc'], end='rollback', link=True),
+    db_case('users', {'n': 2, 'v': 1}, {'n': 1, 'v': 2}, backup='dir', chunk=64, link=True),
+    db_case('registry', {'n': 0, 'v': 1}, {'n': 0, 'v': 2}, tmp='same', link=True),
+    db_case('vacuum', {'n': 3, 'v': 1, 'removed': 1}, None, link=True),
+    db_case('userdata', None, {'n': 1, 'v': 2}, link=True),
+]
+
 TMPS = ['none', 'same', 'exdev', 'realxdev']
 BACKUPS = ['none', 'dir', 'devnull']
 
@@ -973,7 +1013,8 @@ def gen_raw(rng):
     return raw_case(old, writes, tmp=tmp, backup=rng.choice(BACKUPS), mbis=rng.choice([None, True, False]),
                     aeo=rng.choice([None, True, False]), end=end,
                     chunk=rng.choice([0, 64, 4096] if shape == 'big' else [0, 1, 3, 7, 64, 4096]), ops=ops,
-                    explicit=rng.random() < 0.3, with_=(ops is None and end == 'close' and rng.random() < 0.3))
+                    explicit=rng.random() < 0.3, with_=(ops is None and end == 'close' and rng.random() < 0.3),
+                    link=rng.random() < 0.25)
 
 
 def gen_db(rng, caller):
@@ -988,7 +1029,8 @@ def gen_db(rng, caller):
     if caller == 'registry':
         new = {'n': 0, 'v': rng.randint(0, 3)}
         old = rng.choice([None, {'n': 0, 'v': rng.randint(0, 3)}])
-    return db_case(caller, old, new, tmp=rng.choice(TMPS), backup=rng.choice(BACKUPS), chunk=rng.choice([0, 16, 200]))
+    return db_case(caller, old, new, tmp=rng.choice(TMPS), backup=rng.choice(BACKUPS), chunk=rng.choice([0, 16, 200]),
+                   link=rng.random() < 0.3)
 
 
 def usable(c):
@@ -1057,11 +1099,11 @@ def run(ctx):
             if tmp == 'realxdev' and ctx.scale == 1 and caller not in ('users', 'registry'):
                 continue       # quick tier: the real second file system for two callers (+ raw), the injected EXDEV for all
             if caller == 'vacuum':
-                cases.append(db_case(caller, {'n': 4, 'v': 1, 'removed': 2}, None, tmp=tmp, backup='dir', chunk=32))
+                cases.append(db_case(caller, {'n': 4, 'v': 1, 'removed': 2}, None, tmp=tmp, backup='dir', chunk=32, link=(tmp == 'same')))
             elif caller == 'registry':
-                cases.append(db_case(caller, {'n': 0, 'v': 1}, {'n': 0, 'v': 2}, tmp=tmp, backup='dir', chunk=32))
+                cases.append(db_case(caller, {'n': 0, 'v': 1}, {'n': 0, 'v': 2}, tmp=tmp, backup='dir', chunk=32, link=(tmp == 'same')))
             else:
-                cases.append(db_case(caller, {'n': 3, 'v': 1}, {'n': 1, 'v': 2}, tmp=tmp, backup='dir', chunk=32))
+                cases.append(db_case(caller, {'n': 3, 'v': 1}, {'n': 1, 'v': 2}, tmp=tmp, backup='dir', chunk=32, link=(tmp == 'same')))
                 if tmp in ('none', 'exdev'):
                     cases.append(db_case(caller, None if tmp == 'none' else {'n': 1, 'v': 0}, {'n': 3, 'v': 3}, tmp=tmp, chunk=50))
     for _ in range(ctx.n(28)):
